@@ -65,7 +65,7 @@ For each change i in (1, 2) write into {out}/i/ :
                  needed for it to manifest, and why the existing tests do not notice.
 
 Procedure: make change 1, run the full test suite, run the demo on the changed and (after
-`git -C {wt} stash` or by saving the diff and `git -C {wt} checkout -- .`) on the pristine tree,
+by saving the diff and `git -C {wt} checkout -- .`; NEVER use `git stash`: the stash is shared with other worktrees of this repository that other people are using right now) on the pristine tree,
 save the files; restore the pristine tree; do the same for change 2. Leave the worktree clean
 (`git -C {wt} status` empty) when you finish. Do not commit anything.
 
